@@ -7,6 +7,7 @@ import MitmVerif.Model.C04
 namespace MitmVerif.Props.C04
 open MitmVerif.C04
 
+section generic
 variable {σ σp σc Ev Cmd Reply : Type}
 
 /-! #### vocabulary over the ghost trace -/
@@ -880,6 +881,8 @@ theorem nextlayer_replay_in_order [DecidableEq Cmd] (P : NLParams Ev Cmd Reply) 
     exact ⟨this, hp.noev, hp.noq, hp.idle⟩
 
 
+end generic
+
 /-! ### the interpreted programs of the correspondence run satisfy the hypotheses above -/
 section prog
 open Prog
@@ -956,7 +959,13 @@ example : (runSched exParent 0 exP0 [.plain ⟨1, 0⟩]).paused.isNone = true :=
 example : ((runSched exParent 0 exP0 [.plain ⟨1, 0⟩]).st.2.map (fun ch => ch.paused.map (·.1))) = [some exCmd] := by decide
 example : (handleEvent exParent 0 exP0 (.plain ⟨1, 0⟩)).2
     = [(⟨2, 0, 0, 0⟩, .no), (exCmd, .owned), (⟨2, 1, 3, 0⟩, .no)] := by decide
-example : ∀ s ev, NoBlock (interp 2 exPTab s ev) := interp_noblock 2 exPTab (by decide)
+example : ∀ s ev, NoBlock (interp 2 exPTab s ev) := interp_noblock 2 exPTab (by
+  intro acts ha a h l
+  simp only [exPTab, List.mem_cons, List.not_mem_nil, or_false] at ha
+  rcases ha with rfl | rfl
+  · simp at h
+  · simp only [List.mem_cons, List.not_mem_nil, or_false] at h
+    rcases h with rfl | rfl | rfl <;> simp)
 
 private def exNL : NLParams Ev Cmd Reply where
   kind e := if e.label = 1 then .data else if e.label = 3 then .clientClosed else .other
